@@ -427,7 +427,9 @@ pub fn sim_advanced(
         // a rough estimate of the number of events in the trace
         sq.len() * 2
     };
-    let mut trace: Vec<SimEvent> = Vec::with_capacity(expected_trace_len);
+    // the expected length is only a capacity hint: a very large max_trace_length
+    // (e.g. usize::MAX as "no limit") must not be allocated up front
+    let mut trace: Vec<SimEvent> = Vec::with_capacity(expected_trace_len.min(1 << 16));
 
     // put the mocked current time at the first event
     let mut current_time = sq.get_first_time().unwrap();
